@@ -3,6 +3,7 @@ package main
 // Script assembly and solver portfolio.
 
 import (
+	"regexp"
 	"bytes"
 	"context"
 	"crypto/sha256"
@@ -296,6 +297,12 @@ func (d *Discharger) Discharge(reg *Registry, o *Obligation) *OblResult {
 		if weak != script {
 			atts = append(atts, attempt{byName("z3-new"), weak, "w", true}, attempt{byName("z3-nomb"), weak, "w", true})
 		}
+		if op := opaqueSpecs(script); op != script {
+			atts = append(atts, attempt{byName("z3-new"), op, "o", true})
+			if r2 := opaqueSpecs(assembleScriptRel(reg, o, false, false, true, true)); r2 != op {
+				atts = append(atts, attempt{byName("z3-new"), r2, "ro", true}, attempt{byName("z3-new-nomb"), r2, "ro", true})
+			}
+		}
 		rel := assembleScriptRel(reg, o, false, false, true, true)
 		if rel != script && rel != weak {
 			atts = append(atts, attempt{byName("z3-new"), rel, "r", true}, attempt{byName("z3-new-nomb"), rel, "r", true}, attempt{byName("z3-nomb"), rel, "r", true})
@@ -315,6 +322,9 @@ func (d *Discharger) Discharge(reg *Registry, o *Obligation) *OblResult {
 			}
 			if a.tag == "r" {
 				sr.Solver += "+relevant"
+			}
+			if a.tag == "o" || a.tag == "ro" {
+				sr.Solver += "+opaque"
 			}
 			ch <- sr
 		}(a)
@@ -383,4 +393,87 @@ func (d *Discharger) DischargeVacuity(reg *Registry, o *Obligation) *OblResult {
 		r.Res.Solver = "none"
 	}
 	return r
+}
+
+// quickSolve runs z3-new synchronously on a script given on stdin.
+func quickSolve(script string, timeoutS int) string {
+	ctx, cancel := context.WithTimeout(context.Background(), time.Duration(timeoutS+1)*time.Second)
+	defer cancel()
+	cmd := exec.CommandContext(ctx, "z3-new", "-t:400", fmt.Sprintf("-T:%d", timeoutS), "-in")
+	cmd.Stdin = strings.NewReader(script)
+	var out bytes.Buffer
+	cmd.Stdout = &out
+	_ = cmd.Run()
+	return strings.TrimSpace(strings.SplitN(strings.TrimSpace(out.String()), "\n", 2)[0])
+}
+
+// DischargeBatch: one short attempt on a conjunction of goals.
+func (d *Discharger) DischargeBatch(reg *Registry, o *Obligation) bool {
+	script := assembleScript(reg, o, false, false, false)
+	h := sha256.Sum256([]byte(script))
+	id := fmt.Sprintf("b%x", h[:8])
+	sr := runSolver(context.Background(), solvers[0], script, d.Dir, id, d.Quick)
+	d.count("z3-new(batch)", sr.Seconds)
+	return sr.Status == "unsat"
+}
+
+// stripQuantifiedDecls removes quantified axioms from a script (used only for
+// feasibility pruning, where fewer assumptions are sound).
+func stripQuantifiedDecls(script string) string {
+	var b strings.Builder
+	for _, ln := range strings.Split(script, "\n") {
+		if strings.HasPrefix(ln, "(assert (forall") {
+			continue
+		}
+		b.WriteString(ln)
+		b.WriteByte('\n')
+	}
+	return b.String()
+}
+
+var defineFunRe = regexp.MustCompile(`^\(define-fun(-rec)? (sp_[A-Za-z0-9_]+) \(((?:\([^()]*(?:\([^()]*\))*[^()]*\) ?)*)\) `)
+
+// opaqueSpecs turns spec-function definitions into uninterpreted declarations
+// (a sound weakening: the definitions are dropped).
+func opaqueSpecs(script string) string {
+	var b strings.Builder
+	changed := false
+	for _, ln := range strings.Split(script, "\n") {
+		if strings.HasPrefix(ln, "(define-fun sp_") || strings.HasPrefix(ln, "(define-fun-rec sp_") {
+			if d := declOfDefine(ln); d != "" {
+				b.WriteString(d)
+				b.WriteByte('\n')
+				changed = true
+				continue
+			}
+		}
+		b.WriteString(ln)
+		b.WriteByte('\n')
+	}
+	if !changed {
+		return script
+	}
+	return strings.TrimSuffix(b.String(), "\n")
+}
+
+// declOfDefine: "(define-fun f ((a S) (b T)) R body)" -> "(declare-fun f (S T) R)"
+func declOfDefine(ln string) string {
+	fs := splitSexp(ln[1 : len(ln)-1])
+	if len(fs) < 5 {
+		return ""
+	}
+	name := fs[1]
+	params := fs[2]
+	ret := fs[3]
+	var sorts []string
+	if params != "()" {
+		for _, p := range splitSexp(params[1 : len(params)-1]) {
+			pp := splitSexp(p[1 : len(p)-1])
+			if len(pp) != 2 {
+				return ""
+			}
+			sorts = append(sorts, pp[1])
+		}
+	}
+	return fmt.Sprintf("(declare-fun %s (%s) %s)", name, strings.Join(sorts, " "), ret)
 }
